@@ -19,6 +19,7 @@ def decl_type(d: Decl) -> Dict:
 
 
 RANDOM_PER_CLASS = 300
+RANDOM_PER_CLASS_QUICK = 12
 
 
 def root_inputs(mm: MetaModel, d: Decl, cap: int = 60) -> List[Any]:
@@ -52,10 +53,11 @@ def root_inputs(mm: MetaModel, d: Decl, cap: int = 60) -> List[Any]:
             seen.add(k)
             uniq.append(j)
     uniq = uniq[:cap]
-    if os.environ.get("VERIF_TIER") == "thorough":
-        # thorough tiers: random strictly valid values on top of the structured family (seeded by VERIF_SEED and the class name)
+    if True:
+        # random strictly valid values on top of the structured family (seeded by VERIF_SEED and the class name): a few in the quick
+        # tier, RANDOM_PER_CLASS in the thorough tier
         rng = random.Random(zlib.crc32(d.pyname.encode()) ^ (int(os.environ.get("VERIF_SEED", "0") or 0) * 2654435761 % 2**32))
-        for _ in range(RANDOM_PER_CLASS):
+        for _ in range(RANDOM_PER_CLASS if os.environ.get("VERIF_TIER") == "thorough" else RANDOM_PER_CLASS_QUICK):
             try:
                 j = mm.random_value(t, rng)
             except Exception:  # noqa
